@@ -278,7 +278,8 @@ type ClientOpts struct {
 // client and wanted capabilities that are never negotiated.
 func (g G) Knobs(o ClientOpts) ClientOpts {
 	if o.Timeout == 0 {
-		o.Timeout = []time.Duration{0, 0, 50 * time.Millisecond, time.Second, 15 * time.Second, 10 * time.Minute}[g.Intn(6)]
+		// (-1: Config.Timeout set to 0, documented as "wait indefinitely")
+		o.Timeout = []time.Duration{0, 0, 50 * time.Millisecond, time.Second, 15 * time.Second, 10 * time.Minute, -1}[g.Intn(7)]
 	}
 	if o.SplitLen == 0 {
 		o.SplitLen = []int{0, 0, 0, 50, 200, 510, 2000}[g.Intn(7)]
@@ -303,8 +304,10 @@ func NewClient(o ClientOpts) *client.Conn {
 	cfg.Pass = o.Pass
 	cfg.Flood = o.Flood
 	cfg.PingFreq = o.PingFreq
-	if o.Timeout != 0 {
+	if o.Timeout > 0 {
 		cfg.Timeout = o.Timeout
+	} else if o.Timeout < 0 {
+		cfg.Timeout = 0
 	}
 	cfg.Server = o.Server
 	if cfg.Server == "" {
